@@ -193,7 +193,11 @@ func (v *Verifier) solveCanary(o *Oblig, dir string) {
 		}
 		file := filepath.Join(dir, sanitizeFile(o.Name)+fmt.Sprintf(".part%d", i+1)+".smt2")
 		os.WriteFile(file, []byte(o.renderPart(p.Goal, p.Anc)), 0o644)
-		st, solver, secs, out, _ := v.race(file, false)
+		quick := &Verifier{Timeout: 3}
+		if v.Timeout < 3 {
+			quick.Timeout = v.Timeout
+		}
+		st, solver, secs, out, _ := quick.race(file, false)
 		o.Secs += secs
 		outs = append(outs, out)
 		if st == "failed" { // 'unreachable' refuted: reachable
